@@ -119,6 +119,17 @@ func c18Run(c core.Case, env *core.Env) core.Result {
 				continue
 			}
 			pub := ref.SecpBaseMul(sk)
+			if k%5 == 0 {
+				// a parent whose X coordinate has a leading zero byte (1 key in 256): its serialisation needs left padding
+				for pub.X.BitLen() > 248 {
+					sk.Add(sk, big1).Mod(sk, ref.SecpN)
+					if sk.Sign() == 0 {
+						sk.SetInt64(1)
+					}
+					pub = ref.SecpBaseMul(sk)
+				}
+				r.Count("parents_with_short_x", 1)
+			}
 			chain := randBytes(rg, 32)
 			if k%7 == 0 {
 				chain[0], chain[1] = 0, 0 // leading zero bytes
@@ -155,6 +166,9 @@ func c18Run(c core.Case, env *core.Env) core.Result {
 				}
 				acc.Add(acc, il).Mod(acc, ref.SecpN)
 				cur = nx
+				if cur.Key.X.BitLen() <= 248 {
+					r.Count("derived_keys_with_short_x", 1)
+				}
 			}
 			if !refOK {
 				continue
